@@ -143,6 +143,13 @@ def run_unit(unit, acc):
         check_case(dict(kind="task_lists", tasks=list(reversed(names))), acc)
         check_case(dict(kind="task_lists", tasks=names[3:] + names[:3]), acc)
         check_case(dict(kind="task_lists", tasks=[]), acc)
+        # dictionaries keyed by task names with other keys in between: every task keeps its own entry
+        junk = ["foo", "", "Detection3d", "sensing_", "none"]
+        for a in names:
+            for j in junk[:3]:
+                for order in range(3):
+                    keys = [[j, a], [a, j], [j, a, junk[3], names[(names.index(a) + 1) % len(names)]]][order]
+                    check_case(dict(kind="task_dict", keys=keys), acc)
     elif unit["kind"] == "frame_distinct":
         for a in FrameID:
             check_case(dict(kind="frame_distinct", a=a.name), acc)
@@ -237,6 +244,12 @@ def check_case(case, acc):
                     if s != d:
                         p = td.transform((a, b), (0.5, 0.0, -1.0))
                         ok = ok and np.allclose(p, (1.5, 2.0, 2.0))
+                # item assignment under every spelling registers the same entry
+                td2 = TransformDict()
+                td2[(a, b)] = mat
+                ok = ok and td2.get(ref_key) is mat and td2.get((s, d)) is mat and len(td2) == 1
+                td2[(s, d)] = m2
+                ok = ok and len(td2) == 1 and td2.get(ref_key) is m2
                 detail = ""
             except Exception as ex:  # noqa
                 ok = False
@@ -255,6 +268,23 @@ def check_case(case, acc):
         if not ok:
             acc.violation("parse:EvaluationTask.set_task_lists:order", "set_task_lists(%s) returned %r: every entry must name its member, in input order" % ([m.value for m in members], got[1]), case)
         acc.state(("task_lists", len(members), ok), nontrivial=len(set(case["tasks"])) > 1)
+    elif k == "task_dict":
+        d = {key: {"payload": i} for i, key in enumerate(case["keys"])}
+        acc.exec()
+        got = _outcome(set_task_dict, dict(d))
+        acc.compared()
+        ok = got[0] == "ret" and isinstance(got[1], dict)
+        want = {}
+        if ok:
+            for key in case["keys"]:
+                one = _outcome(set_task_lists, [key])
+                if one[0] == "ret" and len(one[1]) == 1:
+                    want[one[1][0]] = d[key]
+            ok = len(got[1]) == len(want) and all(any(k_ is m for k_ in got[1]) and got[1][m] is want[m] for m in want)
+        if not ok:
+            acc.violation("parse:EvaluationTask.set_task_dict:entries", "set_task_dict(%r) returned %r: every key naming a task must carry that key's own entry (expected %r)" % (
+                d, got[1], {m.value: v for m, v in want.items()}), case)
+        acc.state(("task_dict", len(case["keys"]), tuple(k_ in [m.value for m in EvaluationTask] for k_ in case["keys"]), ok), nontrivial=True)
     elif k == "frame_distinct":
         a = FrameID[case["a"]]
         for b in FrameID:
